@@ -359,6 +359,7 @@ func (r *runner) buildSeed(w *world.World, si int, cnt *Counters, check bool) *N
 type item struct {
 	seed int
 	path []world.Op
+	key  [32]byte // identity of the item's state as computed on world 0
 }
 
 // Run explores one scenario with nworkers worlds.
@@ -423,7 +424,7 @@ func Run(sc *Scenario, worlds []*world.World, deadline time.Time, seedNum int64)
 		frontier = nextF
 	}
 	for _, f := range frontier {
-		items = append(items, item{f.seed, f.n.Trace})
+		items = append(items, item{f.seed, f.n.Trace, r.key(f.n)})
 	}
 	// Phase 2: workers take items; each replays the item's path on its own world, then DFS.
 	ch := make(chan item, len(items))
@@ -455,6 +456,11 @@ func Run(sc *Scenario, worlds []*world.World, deadline time.Time, seedNum int64)
 						panic("HARNESS-NONDETERMINISM: work item path not reproducible on a second world: " + traceString(it.seed, it.path))
 					}
 					n = next
+				}
+				// the same history replayed on a separately constructed world must reach the byte-identical state
+				cnt.Inc("cross_world.states_compared")
+				if r.key(n) != it.key {
+					r.record(Failure{Oracle: "cross-world", Cause: "", Msg: "replaying the history on a second, separately constructed world produced a different state: " + traceString(it.seed, it.path)}, it.seed, it.path)
 				}
 				r.dfs(w, n, it.seed, cnt)
 			}
